@@ -20,7 +20,7 @@
 (* Continuations(G, u) : the terminals (and "$") that keep u viable.       *)
 (* ValidTree(G, t, w)  : t is a derivation tree of w from G.start.         *)
 (* Ambiguous(G, N)     : some string of length <= N has two derivation     *)
-(*                       trees from some... from the start symbol.         *)
+(*                       trees from the start symbol.                      *)
 (***************************************************************************)
 EXTENDS Naturals, Integers, Sequences, FiniteSets
 
@@ -53,12 +53,25 @@ ProductiveFix(G, P) ==
 Productive(G) == ProductiveFix(G, {})
 AllProductive(G) == Productive(G) = NonterminalsOf(G)
 
+\* Left-corner closure: lc[X] = nonterminals Y with X =>* Y ... by expanding first symbols only.
+RECURSIVE LeftCornerFix(_, _)
+LeftCornerFix(NT, R) ==
+    LET R2 == [X \in NT |-> R[X] \cup UNION {R[Y] : Y \in R[X]}]
+    IN  IF R2 = R THEN R ELSE LeftCornerFix(NT, R2)
+
 \* Prepared grammar: what the recognizer needs, computed once.
-\*   nts: nonterminals of the ORIGINAL grammar; by[X]: numbers of the kept productions of X.
+\*   nts : nonterminals of the ORIGINAL grammar (plus the start symbol);
+\*   by[X]: numbers of the kept productions of X;
+\*   pc[X]: numbers of the kept productions of X and of every left corner of X (everything that
+\*          predicting X will eventually predict through first symbols; prediction after a
+\*          nullable first symbol is found by the closure loop itself).
 Prepare(G, keep) ==
-    LET NT == NonterminalsOf(G) \cup {G.start}
-    IN  [start |-> G.start, prods |-> G.prods, nts |-> NT,
-         by |-> [X \in NT |-> {i \in keep : Lhs(G.prods[i]) = X}]]
+    LET NT  == NonterminalsOf(G) \cup {G.start}
+        by  == [X \in NT |-> {i \in keep : Lhs(G.prods[i]) = X}]
+        lc0 == [X \in NT |-> {X} \cup ({Rhs(G.prods[i])[1] : i \in {i \in by[X] : Rhs(G.prods[i]) # <<>>}} \cap NT)]
+        lc  == LeftCornerFix(NT, lc0)
+    IN  [start |-> G.start, prods |-> G.prods, nts |-> NT, by |-> by,
+         pc |-> [X \in NT |-> UNION {by[Y] : Y \in lc[X]}]]
 
 Full(G) == Prepare(G, DOMAIN G.prods)
 
@@ -79,20 +92,33 @@ ItemNext(PG, it) == ItemRhs(PG, it)[it[2] + 1]       \* only when ~ItemDone
 ItemLhs(PG, it)  == Lhs(PG.prods[it[1]])
 Advance(it)      == <<it[1], it[2] + 1, it[3]>>
 
-\* Closure of item set I at position k under predict and complete; prev = <<S_0, ..., S_{k-1}>>.
-RECURSIVE EarleyClose(_, _, _, _)
-EarleyClose(PG, prev, k, I) ==
-    LET open == {it \in I : ~ItemDone(PG, it)}
-        done == {it \in I : ItemDone(PG, it)}
-        want == {ItemNext(PG, it) : it \in open} \cap PG.nts
-        pred == UNION {{<<q, 0, k>> : q \in PG.by[X]} : X \in want}
-        comp == UNION {LET A   == ItemLhs(PG, it)
-                           src == IF it[3] = k THEN open
-                                  ELSE {j \in prev[it[3] + 1] : ~ItemDone(PG, j)}
-                       IN  {Advance(j) : j \in {j \in src : ItemNext(PG, j) = A}}
-                       : it \in done}
-        new  == I \cup pred \cup comp
-    IN  IF new = I THEN I ELSE EarleyClose(PG, prev, k, new)
+(* Closure of an item set at position k under predict and complete, as a   *)
+(* work-list fixed point.  prev = <<S_0, ..., S_{k-1}>>; I = all items so  *)
+(* far; F \subseteq I = items not yet processed; O = the items of I with   *)
+(* the dot not at the end; PX = nonterminals already predicted here; ND =  *)
+(* nonterminals already completed with origin k (they derive the empty     *)
+(* string here), so an item that starts waiting for one of them later is   *)
+(* advanced at once.                                                       *)
+RECURSIVE EarleyWork(_, _, _, _, _, _, _, _)
+EarleyWork(PG, prev, k, I, F, O, PX, ND) ==
+    IF F = {} THEN I
+    ELSE
+    LET openF == {it \in F : ~ItemDone(PG, it)}
+        doneF == F \ openF
+        want  == ({ItemNext(PG, it) : it \in openF} \cap PG.nts) \ PX
+        pred  == UNION {{<<q, 0, k>> : q \in PG.pc[X]} : X \in want}
+        O2    == O \cup openF
+        ND2   == ND \cup {ItemLhs(PG, it) : it \in {it \in doneF : it[3] = k}}
+        comp  == UNION {LET A   == ItemLhs(PG, it)
+                            src == IF it[3] = k THEN O2
+                                   ELSE {j \in prev[it[3] + 1] : ~ItemDone(PG, j)}
+                        IN  {Advance(j) : j \in {j \in src : ItemNext(PG, j) = A}}
+                        : it \in doneF}
+        late  == {Advance(j) : j \in {j \in openF : ItemNext(PG, j) \in ND2}}
+        new   == (pred \cup comp \cup late) \ I
+    IN  EarleyWork(PG, prev, k, I \cup new, new, O2, PX \cup want, ND2)
+
+EarleyClose(PG, prev, k, seed) == EarleyWork(PG, prev, k, seed, seed, {}, {}, {})
 
 Scan(PG, S, x) == {Advance(it) : it \in {it \in S : ~ItemDone(PG, it) /\ ItemNext(PG, it) = x}}
 
